@@ -501,8 +501,10 @@ def enumerate_items(tier, rng):
 def run(res, tier, seed):
     res.bound = ("3 spaces (A, A.Ch, B) x <= 6 cells, target formula = grammar of %d atoms x %d contexts, depth <= 2 "
                  "(quick: every atom x every context with 2 partners; thorough: every atom pair x every context), "
-                 "depth 3 sampled; 4 target signatures; <= %d query orders of 13-14 queries per model; every binding "
-                 "form of every query") % (len(ATOMS) + len(TYPED_ATOMS) + len(COLLIDE_ATOMS), len(CONTEXTS) + 1, 3 if tier == "quick" else 6)
+                 "depth 3 sampled; + 2 small skeletons (cells of an ItemSpace with 2 parameters: %d atoms; derived / overridden cells of a "
+                 "sub space: %d atoms) x contexts; 4 target signatures; <= %d query orders of 13-14 queries per model; every binding "
+                 "form of every query") % (len(ATOMS) + len(TYPED_ATOMS) + len(COLLIDE_ATOMS), len(CONTEXTS) + 1, len(DYN_ATOMS), len(INH_ATOMS),
+                                             3 if tier == "quick" else 6)
     res.rule = ("exhaustive product listed in the bound, then seeded random depth-3 formulas; every case is "
                 "non-trivial (the target and its helpers are computed and compared with the uncached evaluator) except "
                 "when a colliding late reference is refused; distinct = distinct (target formula, shadow/collision "
